@@ -134,6 +134,16 @@ def _day(ctx, sp, c, dn, point_level):
             if got.rep != to or got.f != reps[to] or g2 != reps[to]:
                 ctx.violation(name, {"fn": name}, case, expected=reps[to],
                               observed={"to": [got.rep, list(got.f)], "get": list(g2)})
+                continue
+            # ... and nothing of the old representation may linger in it: slot for slot it is the value the
+            # constructor builds from the target fields (a stale field would steer later carries)
+            try:
+                twin = impl.build_point({"rep": to, "f": list(reps[to]), "ned": ned})
+                if impl.canon_point(q) != impl.canon_point(twin):
+                    ctx.violation("converted_is_clean", {"fn": name}, case, repr(impl.canon_point(twin)[:10]),
+                                  repr(impl.canon_point(q)[:10]))
+            except Exception as e:
+                ctx.violation("construct", {"rep": to, "exc": type(e).__name__}, case, "accepted", repr(e))
 
 
 def _year(ctx, sp, c, y):
